@@ -296,12 +296,18 @@ def run(ctx: Ctx):
             run_gradflow(ctx, name, dic, raw_ids, dens, merged_n, merged_g)
             ctx.add("traces_validated_against_impl")
             ctx.cov.setdefault("densities", {})[name] = sorted(dens)
+            ctx.sample({"configuration": name, "argv": argv[5:], "densities": len(dens), "raw_parameters": raw_ids,
+                        "influences": {k: sorted(v) for k, v in list(merged_n.items())[:3]}}, limit=4)
     for n, kind, tip_states in ([(24, "balanced", False), (800, "balanced", False), (800, "random", True)] if quick else
                                 [(24, "balanced", False), (24, "random", True), (420, "balanced", False), (800, "balanced", False), (800, "random", True),
                                  (1000, "random", False), (500, "caterpillar", False), (1200, "balanced", True)]):
         big_case(ctx, rnd, n, kind, tip_states, 6 if quick else 16)
     if not ctx.cov.get("regimes", {}).get("first-detection"):
         raise Machinery("no large tree likelihood reached the underflow-detection path")
+    ctx.cov["explanation"] = ("autograd gradients of every callable of CLI-emitted configurations (and of large tree likelihoods in the plain / underflow-detection / "
+                              "rescaled regimes) compared coordinate by coordinate with Richardson-extrapolated central differences of the returned value; GradFlow.tla "
+                              "(TLC) judges the measured influence relations: every numerically influential raw parameter is reachable along the extracted data flow "
+                              "and receives a gradient")
     ctx.cov["rule"] = ("one evaluation = one (configuration, rescaling) pass: every callable x every coordinate of every raw parameter at random interior points; "
                        "coordinates whose two stencils disagree (event-order change inside the stencil) are skipped and counted")
     ctx.assumptions += ["the equality of gradient and derivative is decided numerically (Richardson central differences, h = 1e-4, tolerance 2e-6 relative + 20 x stencil "
